@@ -189,7 +189,7 @@ func c04Run(r *mon.Run) {
 			c04Spice(rng, p)
 		}
 		l := gen.RandLayout(rng)
-		l.Comments, l.EmptyHash = 0, 0
+		l.Comments, l.EmptyHash, l.HashGlue = 0, 0, false
 		if rng.IntN(3) == 0 {
 			l = gen.DefaultLayout
 		}
